@@ -216,7 +216,8 @@ int main(int argc, char** argv)
         // (3b) two parses on one parser object: the second must still hit the exact boundary
         {
             std::vector<std::vector<std::string>> firsts = { {}, { "--opt=1" }, { "-t" }, { "--zz" }, { "--", "a", "b", "c" },
-                                                             { "x" }, { "--opt" }, { "--no-tog" }, { "-m", "1" } };
+                                                             { "x" }, { "--opt" }, { "--no-tog" }, { "-m", "1" },
+                                                             { "--opt=1", "-t", "--zz" }, { "-m", "1", "--opt" }, { "--opt=1", "--opt=2" } };
             for (auto& D : decls)
                 for (auto& env : environments(D, false))
                     for (auto& f : firsts)
